@@ -240,6 +240,28 @@ func genC12(r *Rng, tier string) *World {
 		for i := range op.Opts {
 			op.Opts[i].Shared = r.P(0.3)
 		}
+		if op.Kind == "parse" && root.Kind == "struct" && op.Input.K == "m" && r.P(0.3) {
+			// a destination that has been used before: its slices already own storage (longer than what arrives now, filled with
+			// other values). Parse builds the list anew - callbacks see this call's elements, absent members are zero.
+			pre := VM()
+			for _, f := range root.Fields {
+				if f.N.Kind != "slice" {
+					continue
+				}
+				for _, kv := range op.Input.M {
+					if kv.K == f.Key && kv.V.K == "l" && len(kv.V.L) > 0 && len(kv.V.L) < 8 {
+						l := VL()
+						for k := 0; k <= len(kv.V.L); k++ {
+							l.L = append(l.L, Sentinel(f.N.Elem))
+						}
+						pre.M = append(pre.M, KV{f.Key, l})
+					}
+				}
+			}
+			if len(pre.M) > 0 {
+				op.Pre = &pre
+			}
+		}
 		op.Rev = r.P(0.35)
 		ops = append(ops, op)
 	}
